@@ -56,6 +56,20 @@ def rule_call_table(ctx):
             it = Interp(pkg, self_class=cls, assumptions={"domain": dom, "shift": shift, "self.noise": noise})
             outs = it.run(m)
             rets = [o for o in outs if o.kind == "return"]
+            # a return path that hands back something kept on the object (a memo of an earlier transform) instead of a transform of the
+            # current samples: the samples are plain arrays the caller (and the library's devices) may edit in place
+            stale = []
+            for r_ in rets:
+                v_ = r_.value
+                if isinstance(v_, Form) and not isinstance(v_, ObjV):
+                    held = [a for a in v_.atoms() if (a[0] == "sym" and a[1].startswith("self.") and a[1].split(".")[1] not in ("signal", "noise"))
+                            or (a[0] == "fn" and a[1] == "getattr" and a[2] and isinstance(a[2][0], Form) and a[2][0].sym_name() == "self")]
+                    if held:
+                        stale.append(r_)
+            if stale:
+                ctx.violation("C02.1", m, stale[0].node, f"{case}: returns a result stored on the object", "this return path does not transform the current samples: after an in-place edit of "
+                              "x.signal / x.noise (same array objects) x('w') and x('t') return the transform of the old data - no longer inverse pairs, Parseval fails")
+                rets = [r_ for r_ in rets if r_ not in stale]
             if len(rets) != 1 or not isinstance(rets[0].value, ObjV):
                 ctx.unknown("C02.1", m, m.node, case, f"{len(rets)} return paths")
                 continue
@@ -98,8 +112,11 @@ def tag_of(v, scalars):
         return SCAL
     if isinstance(v, TupleV):
         tags = {tag_of(i, scalars) for i in v.items} - {SCAL}
-        if len(tags) > 1:
-            raise Clash(f"tuple mixes {sorted(tags)}")
+        known = tags - {None}
+        if len(known) > 1:
+            raise Clash(f"tuple mixes {sorted(known)}")
+        if None in tags:
+            return None
         return tags.pop() if tags else SCAL
     if isinstance(v, ObjV):
         return tag_of(v.fields.get("signal"), scalars)
